@@ -238,6 +238,15 @@ def placeAllAux (cfg : Cfg) : Alloc → List ItemShape → List Nat
 /-- Start rows of all regions, computed from the shapes only. -/
 def placeAll (cfg : Cfg) (shapes : List ItemShape) : List Nat := placeAllAux cfg [] shapes
 
+/-- Regions with their shape and start row (same recursion as `placeAllAux`). -/
+def placedAux (cfg : Cfg) : Alloc → List ItemShape → List (Shape × Nat)
+  | _, [] => []
+  | a, .region sh n :: rest =>
+    (sh, (place a sh).1) :: placedAux cfg (placeStep cfg a (.region sh n)).1 rest
+  | a, .other :: rest => placedAux cfg a rest
+
+def placed (cfg : Cfg) (shapes : List ItemShape) : List (Shape × Nat) := placedAux cfg [] shapes
+
 /-! ## Erasure of witness values -/
 
 def Ev.erase : Ev → Ev
